@@ -704,6 +704,12 @@ fn build_at(spec: &ProgSpec, orig: u16, force_orig_line: bool) -> Built {
         }
     }
     let mut program = Program { lines: b.lines };
+    // one program in eight ends with a labelled `.break` that nothing follows: the label and the
+    // breakpoint belong to the address right after the last statement (where the loader puts the
+    // implicit HALT)
+    if spec.fit == 0 && spec.raw_words.is_none() && (spec.orig_val >> 9) & 7 == 3 {
+        program.lines.push(Line { label: Some(("TAILBK".to_string(), spec.orig_val & 1 == 1)), body: Body::Break });
+    }
 
     // Patch pointers now that the layout is known.
     let mut idx = 0usize;
